@@ -2,6 +2,6 @@
 # Full .vo build of the development (no -vos/-vok). Usage: build.sh [make args]
 set -e
 cd "$(dirname "$0")"
-{ cat _CoqProject.head; find model proofs props corr -name '*.v' | sort; } > _CoqProject
+{ cat _CoqProject.head; find model proofs props corr -name '*.v' ! -name 'Tmp*' ! -name 'tmp*' ! -name 'scratch*' | sort; } > _CoqProject
 coq_makefile -f _CoqProject -o Makefile.coq >/dev/null
 exec timeout 3000 make -f Makefile.coq -j16 "$@"
